@@ -256,6 +256,10 @@ func (g *sgen) setStmt(loops []loopInfo) *S {
 }
 
 func (g *sgen) body(d int, loops []loopInfo) []*S {
+	if g.pick(8, "emptybody") == 0 {
+		// an empty body: the tags stand directly next to each other
+		return nil
+	}
 	n := rapid.IntRange(1, 4).Draw(g.t, "nstmts")
 	var out []*S
 	for i := 0; i < n && g.budget > 0; i++ {
